@@ -56,7 +56,7 @@ DENY = [r".*\.tmp$", r"test_.*\.py$", r".*_api\.py$"]
 
 
 def _dir_variants():
-    allows = [None] + [[a] for a in ALLOW] + [list(ALLOW)]
+    allows = [None, []] + [[a] for a in ALLOW] + [list(ALLOW)]
     denies = [None] + [[d] for d in DENY]
     out = [None]
     for a in allows:
@@ -69,11 +69,12 @@ def _dir_variants():
             if d is not None:
                 r["deny"] = d
             out.append(r)
-    return out  # 1 + 19
+    return out
 
 
 GLOBALS = [
     {},
+    {"global_patterns": {"allow": []}},
     {"global_deny": [r".*\.tmp$"]},
     {"global_deny": [r"^src2/"]},
     {"global_patterns": {"deny": [r".*\.tmp$"]}},
@@ -146,7 +147,7 @@ def items(tier: str, seed: int):
     dv = _dir_variants()
     out = []
     if tier == "quick":
-        tests_opts = [None, {"allow": [r"test_.*"]}]
+        tests_opts = [None]
     else:
         tests_opts = dv
     cfgs = (
@@ -199,7 +200,7 @@ def _classify(path, cfg, got, exp):
     return {"site": site, "mode": "extra" if got else "missing"}, why
 
 
-def _run_cfg(acc: Acc, root, cfg: dict, carrier: str = "config", front: str = "inproc", tag: str = ""):
+def _run_cfg(acc: Acc, root, cfg: dict, carrier: str = "config", front: str = "inproc", tag: str = "", per_file: bool = True):
     """One real CLI run for the rule set; per-file comparison with the model."""
     if carrier == "config":
         (root / "cfg.yaml").write_text(yaml_dump({"file-placement": cfg}))
@@ -233,7 +234,7 @@ def _run_cfg(acc: Acc, root, cfg: dict, carrier: str = "config", front: str = "i
         if v["rule_id"].startswith("file-placement"):
             reported.add(obs.relfile(v["file"], root, root))
     exp_any = False
-    for p in TREE:
+    for p in (TREE if per_file else []):
         acc.case()
         acc.valid()
         exp = model_reported(p, cfg)
@@ -292,6 +293,10 @@ def _covering_cfgs():
         sel.append(_mk(v, None, None, {}))
         sel.append(_mk({"allow": [r".*\.py$"]}, v, None, {}))
         sel.append(_mk(None, None, v, {}))
+    for v in dv[1:6]:
+        for w in dv[6:11]:
+            sel.append(_mk(v, w, None, {}))
+            sel.append(_mk(v, w, w, {}))
     for g in GLOBALS[1:]:
         sel.append(_mk(None, None, None, g))
         sel.append(_mk({"allow": [r".*\.py$"], "deny": [r"test_.*\.py$"]}, None, None, g))
@@ -320,6 +325,25 @@ def run_item(item) -> Acc:
                         sorted(got),
                         "same rule set, different carrier / target spelling",
                     )
+            # directory keys with a trailing slash, and every listing order of the keys
+            dirs = cfg.get("directories") or {}
+            if dirs:
+                import itertools as _it  # noqa: PLC0415
+
+                spellings = [{k: k for k in dirs}, {k: k + "/" for k in dirs}]
+                if len(dirs) > 1:
+                    first = sorted(dirs)[0]
+                    spellings.append({k: (k + "/" if k == first else k) for k in dirs})
+                    spellings.append({k: (k if k == first else k + "/") for k in dirs})
+                for sp in spellings:
+                    for order in _it.permutations(sorted(dirs)):
+                        c2 = {**cfg, "directories": {sp[k]: dirs[k] for k in order}}
+                        if c2 == cfg and list(c2["directories"]) == list(dirs):
+                            continue
+                        got = _run_cfg(acc, root, c2, per_file=False)
+                        acc.edge()
+                        if got is not None and base is not None and got != base:
+                            acc.fail({"site": "key-spelling-or-order-edge", "mode": "differs", "trailing_slash": any(v.endswith("/") for v in sp.values()), "reordered": list(order) != sorted(dirs)}, {"cfg": c2}, sorted(base), sorted(got), "same rules, directory keys respelled with a trailing slash and/or listed in another order")
             for how in ("reason", "message", "allow-mapping"):
                 c2 = _respell(cfg, how)
                 if c2 == cfg:
